@@ -76,8 +76,9 @@ def underSubDomainHost (host domain : Str) : Bool :=
     pkg/config/v1/validation/visitor.go  ValidateVisitorConfigurer, validateVisitorBaseConfig, validateXTCPVisitorConfig
     pkg/config/v1/validation/server.go   ValidateServerConfig
     pkg/config/v1/validation/common.go   validateWebServerConfig, validateLogConfig, ValidatePort
-  Annotation keys (k8s IsQualifiedName) and plugin options are outside the model: the driver skips lines
-  that carry an annotation key outside the plain fragment, plugins are never set. -/
+  Annotation keys (k8s IsQualifiedName) are outside the model: the driver skips lines that carry an
+  annotation key outside the plain fragment.  The plugin block is modelled by its type string and the three
+  options `ValidateClientPluginOptions` reads (pkg/config/v1/validation/plugin.go). -/
 
 inductive PKind
   | tcp | udp | tcpmux | http | https | stcp | xtcp | sudp
@@ -95,9 +96,14 @@ structure ProxyView where
   subDomain : Str
   customDomains : List Str
   multiplexer : Str
+  /-- `Plugin.ClientPluginOptions`: LocalAddr / LocalPath / UnixPath of the options struct selected by
+      `pluginType` (empty when that struct has no such field) -/
+  pluginLocalAddr : Str := []
+  pluginLocalPath : Str := []
+  pluginUnixPath : Str := []
 
 inductive ClientErr
-  | name | ppv | bwmode | port | hctype | hcpath | domains | mux
+  | name | ppv | bwmode | port | hctype | hcpath | domains | mux | plugin
   deriving DecidableEq, Repr
 
 def sV1 : Str := [118, 49]
@@ -109,8 +115,52 @@ def sHttp : Str := [104, 116, 116, 112]
 def sHttpConnect : Str := [104, 116, 116, 112, 99, 111, 110, 110, 101, 99, 116]
 def sKcp : Str := [107, 99, 112]
 def sQuic : Str := [113, 117, 105, 99]
+def sHttp2Https : Str := [104, 116, 116, 112, 50, 104, 116, 116, 112, 115]
+def sHttps2Http : Str := [104, 116, 116, 112, 115, 50, 104, 116, 116, 112]
+def sHttps2Https : Str := [104, 116, 116, 112, 115, 50, 104, 116, 116, 112, 115]
+def sStaticFile : Str := [115, 116, 97, 116, 105, 99, 95, 102, 105, 108, 101]
+def sUnixDomainSocket : Str := [117, 110, 105, 120, 95, 100, 111, 109, 97, 105, 110, 95, 115, 111, 99, 107, 101, 116]
+def sTls2Raw : Str := [116, 108, 115, 50, 114, 97, 119]
 
-/-- `validateProxyBaseConfigForClient` (annotations valid, no plugin options to check) -/
+/-- `ValidateClientPluginOptions`: the option that must not be empty for the options struct of plugin
+    type `t` (`none`: http_proxy, http2http, socks5, virtual_net, anything else — nothing is checked) -/
+def pluginRequired (c : ProxyView) : Option Str :=
+  if c.pluginType = sHttp2Https || c.pluginType = sHttps2Http || c.pluginType = sHttps2Https || c.pluginType = sTls2Raw
+    then some c.pluginLocalAddr
+  else if c.pluginType = sStaticFile then some c.pluginLocalPath
+  else if c.pluginType = sUnixDomainSocket then some c.pluginUnixPath
+  else none
+
+/-! the blocks of `validateProxyBaseConfigForClient`, each reading only its own fields -/
+
+/-- `if c.Name == ""` -/
+def validateNameBlock (c : ProxyView) : Option ClientErr := if c.name = [] then some .name else none
+
+/-- the two `slices.Contains` checks on `c.Transport` -/
+def validateTransportBlock (c : ProxyView) : Option ClientErr :=
+  if !([[], sV1, sV2].contains c.proxyProtocolVersion) then some .ppv
+  else if !([sClient, sServer].contains c.bandwidthLimitMode) then some .bwmode
+  else none
+
+/-- `if c.Plugin.Type == "" { ValidatePort(c.LocalPort) }` -/
+def validateLocalBlock (c : ProxyView) : Option ClientErr :=
+  if c.pluginType = [] && !validatePort c.localPort then some .port else none
+
+/-- the health check: type ∈ {"", tcp, http}; http needs a path -/
+def validateHealthBlock (c : ProxyView) : Option ClientErr :=
+  if !([[], sTcp, sHttp].contains c.healthCheckType) then some .hctype
+  else if c.healthCheckType = sHttp && c.healthCheckPath = [] then some .hcpath
+  else none
+
+/-- `if c.Plugin.Type != "" { ValidateClientPluginOptions(c.Plugin.ClientPluginOptions) }` -/
+def validatePluginBlock (c : ProxyView) : Option ClientErr :=
+  if c.pluginType ≠ [] then
+    match pluginRequired c with
+    | some [] => some .plugin
+    | _ => none
+  else none
+
+/-- `validateProxyBaseConfigForClient` (annotations valid), statement by statement -/
 def validateProxyBaseForClient (c : ProxyView) : Option ClientErr :=
   if c.name = [] then some .name
   else if !([[], sV1, sV2].contains c.proxyProtocolVersion) then some .ppv
@@ -118,24 +168,37 @@ def validateProxyBaseForClient (c : ProxyView) : Option ClientErr :=
   else if c.pluginType = [] && !validatePort c.localPort then some .port
   else if !([[], sTcp, sHttp].contains c.healthCheckType) then some .hctype
   else if c.healthCheckType = sHttp && c.healthCheckPath = [] then some .hcpath
+  else if c.pluginType ≠ [] then
+    match pluginRequired c with
+    | some [] => some .plugin
+    | _ => none
   else none
+
+/-- the first error of a sequence of checks (`if err := …; err != nil { return err }` chains) -/
+def firstErr : List (Option ClientErr) → Option ClientErr
+  | [] => none
+  | some e :: _ => some e
+  | none :: rest => firstErr rest
 
 /-- `validateDomainConfigForClient` -/
 def validateDomainForClient (c : ProxyView) : Option ClientErr :=
   if c.subDomain = [] && c.customDomains.length = 0 then some .domains else none
 
+/-- the type-specific validator called at the end of `ValidateProxyConfigurerForClient` -/
+def validateTypeBlock (k : PKind) (c : ProxyView) : Option ClientErr :=
+  match k with
+  | .tcpmux =>
+    match validateDomainForClient c with
+    | some e => some e
+    | none => if !([sHttpConnect].contains c.multiplexer) then some .mux else none
+  | .http | .https => validateDomainForClient c
+  | _ => none
+
 /-- `ValidateProxyConfigurerForClient` -/
 def validateProxyForClient (k : PKind) (c : ProxyView) : Option ClientErr :=
   match validateProxyBaseForClient c with
   | some e => some e
-  | none =>
-    match k with
-    | .tcpmux =>
-      match validateDomainForClient c with
-      | some e => some e
-      | none => if !([sHttpConnect].contains c.multiplexer) then some .mux else none
-    | .http | .https => validateDomainForClient c
-    | _ => none
+  | none => validateTypeBlock k c
 
 inductive VisitorErr
   | name | serverName | bindPort | protocol
